@@ -27,6 +27,7 @@ from .scalar import S, CTX, Unsupported
 class Outcome:
     def __init__(self):
         self.pairs = []      # (label, observed, expected)
+        self.claims = []     # (label, lhs, rel, rhs): elementwise inequality that must hold on the whole domain
         self.facts = []      # (label, ok, detail)
         self.vjp = None      # dict(outs=[arrays], gs=[arrays], inputs=[(label, data, grad, requires)])
         self.rejected = None  # str: forward rejected the configuration (not a violation by itself)
@@ -34,6 +35,9 @@ class Outcome:
 
     def pair(self, label, observed, expected):
         self.pairs.append((label, observed, expected))
+
+    def claim(self, label, lhs, rel, rhs):
+        self.claims.append((label, lhs, rel, rhs))
 
     def fact(self, label, ok, detail=""):
         self.facts.append((label, bool(ok), detail))
@@ -391,6 +395,13 @@ def _goal_pairs(outcome, env):
     for label, ok, detail in outcome.facts:
         if not ok:
             facts.append((label, ok, detail))
+    for label, lhs, rel, rhs in outcome.claims:
+        ln, lsh = flat_nodes(lhs)
+        rn, rsh = flat_nodes(rhs)
+        if len(rn) == 1 and len(ln) > 1:
+            rn = rn * len(ln)
+        for i, (a, b) in enumerate(zip(ln, rn)):
+            goals.append((label, i, (sc.sub(a, b), rel), None))
     return goals, facts
 
 
@@ -470,6 +481,12 @@ def _num_diff(goals, model):
     memo = {}
     bad = []
     for label, i, a, b in goals:
+        if b is None:       # inequality claim (node, rel)
+            v = sc.evalf(a[0], model, memo)
+            ok = {">": v > 0, ">=": v >= 0, "<": v < 0, "<=": v <= 0}[a[1]]
+            if v == v and not ok:
+                bad.append((label, i, v, 0.0))
+            continue
         if a is b:
             continue
         x = sc.evalf(a, model, memo)
@@ -560,18 +577,20 @@ def decide_case(case, opts):
             res["discharged"] += 1
             continue
         assumptions = pr.pc + pr.axioms
-        pairs = [(a, b) for _, _, a, b in goals]
+        pairs = [(a, b) for _, _, a, b in goals if b is not None]
+        claims = [a for _, _, a, b in goals if b is None]
         cand_point = None
         verdict = None
         nd = _num_diff(goals, pr.model)
         try:
             if nd:
                 verdict = lw.decide(pairs, assumptions, pin={k: v for k, v in pr.model.items() if k in CTX.vars},
-                                    timeout_ms=opts.timeout_ms, twin=False)
+                                    timeout_ms=opts.timeout_ms, twin=False, claims=claims)
                 if verdict.status == "sat":
                     cand_point = dict(pr.model)
             if cand_point is None:
-                verdict = lw.decide(pairs, assumptions, timeout_ms=opts.timeout_ms, box=opts.box)
+                verdict = lw.decide(pairs, assumptions, timeout_ms=opts.timeout_ms, box=None if claims else opts.box,
+                                    claims=claims)
                 if verdict.status == "sat":
                     cand_point = dict(pr.model)
                     cand_point.update(verdict.point)
@@ -707,6 +726,14 @@ def replay_generic(case, cand, uses_rng=False):
         for i, (a, b) in enumerate(zip(o, e)):
             if abs(a - b) > 1e-5 * scl:
                 msgs.append("%s[%d]: code=%.8g reference=%.8g" % (l, i, a, b))
+    for l, lhs, rel, rhs in out.claims:
+        a, _ = flat_floats(lhs)
+        b, _ = flat_floats(rhs)
+        if len(b) == 1 and len(a) > 1:
+            b = b * len(a)
+        for i, (x, y) in enumerate(zip(a, b)):
+            if not {">": x > y, ">=": x >= y, "<": x < y, "<=": x <= y}[rel]:
+                msgs.append("%s[%d]: %.8g %s %.8g does not hold" % (l, i, x, rel, y))
     if out.vjp is not None:
         base, fd1, e1 = fd_gradients(case, point, uses_rng, 1e-5)
         _, fd2, e2 = fd_gradients(case, point, uses_rng, 1e-4)
